@@ -1,13 +1,15 @@
 (* Correspondence for C05: the harness ran histories of full / partial syncs, each followed
-   by HAProxyUpdate, on the real haproxy.Instance (shard counts 0, 1, 3, 8; no fault, reload
-   queue stub) and recorded, after every update, what the directories hold, projected as in
+   by HAProxyUpdate, on the real haproxy.Instance (shard counts 0, 1, 3, 8; reload
+   queue stub; a third of the histories with updates that fail on an unwritable file, followed by
+   fault-free ones) and recorded, after every update, what the directories hold, projected as in
    Corr_ConfigSM.observe.  A case mismatches when, at some step, the model fed the same calls
    predicts different files (a backend in another file or with another version, a map with
    other entries, an update taken for a no-op or not ...). *)
 From HI Require Export Corr.Corr_ConfigSM.
 
-(* C05 cases carry no fault and no restart *)
-Definition fault_free (c : hcase) : bool :=
-  forallb (fun st => negb (s_restart st) && match s_faults st with [] => true | _ => false end) (h_steps c).
+(* C05 cases carry no restart; some updates have write faults armed (unwritable map / crt-list
+   / main / shard file): the property is judged after every successful update, those that
+   follow a failed one included *)
+Definition no_restart (c : hcase) : bool := forallb (fun st => negb (s_restart st)) (h_steps c).
 Definition mismatches (cs : list hcase) : list N :=
-  map h_id (filter (fun c => negb (fault_free c && case_ok false c)) cs).
+  map h_id (filter (fun c => negb (no_restart c && case_ok false c)) cs).
